@@ -104,6 +104,9 @@ fn check(ctx: &Ctx, c: &Case, label: &str, counting: bool) -> Result<(), Fail> {
 	if re.frames.len() != 0 {
 		return Err(fail("reread_rows", format!("re-read has {} rows", re.frames.len())));
 	}
+	// ... and it can be read with skip-frames again (a finished replay with nothing left to skip)
+	let re_skip = rt::slp_read(&w, true, c.hash).expect_ok("slippi::read(written skip game, skip_frames)").map_err(|f| f.with_file("slp", &bytes).with_file("written.slp", &w).with_detail(detail.clone()))?;
+	same_sem(&re_skip, &full).map_err(|e| fail("reread_skip", format!("skip-frames re-read of the written skip-frames game: {}", e)))?;
 	let _ = se_opts();
 	// through .slpp
 	let p = rt::slpp_write(skip, c.comp).expect_ok("peppi::write(skip game)").map_err(|f| f.with_file("slp", &bytes).with_detail(detail.clone()))?;
